@@ -78,9 +78,12 @@ theorem unknown_field_ignored (buf : Buf) : ∀ (f : Nat) (fields : List Field) 
 /-- **on every strictly well-formed text, typed deserialization answers what the reference semantics says about the tree the
     text denotes** — accept / reject and the value — for every type of the proved family (`De.cov`: bool, integers up to 64
     bits, f64, char, String, unit, Option, newtype / tuple / unit structs, tuples and fixed-size arrays, `Vec`, maps with string
-    keys, byte buffers, nested in any way), whenever the model terminates at its canonical fuel (`FUEL` answers are reported by
-    the check as a broken tie).  The reference's fuel only bounds its recursion: the statement holds at every sufficient fuel.
-    Partial: structs, enums, 128-bit integers, `&str` and non-string map keys are in the model and compared, not in this proof -/
+    keys, byte buffers, derived structs read by name (optional, defaulted, unknown and repeated fields, `deny_unknown_fields`) or
+    by position, enums of all four variant shapes — nested in any way), whenever the model terminates at its canonical fuel
+    (`FUEL` answers are reported by the check as a broken tie).  The reference's fuel only bounds its recursion: the statement
+    holds at every sufficient fuel.  Partial: 128-bit integers (their scanner may stop inside a longer number token), `&str`
+    (the reference does not look at escapes) and non-string map keys (read from the raw key text) are in the model and compared
+    with the implementation, not in this proof; struct fields are assumed to have different names -/
 theorem typed_deserializer_matches_reference_partial (buf : Buf) (ty : Ty) (hc : De.cov ty = true) (s e : Nat)
     (h : Spec.document true buf = some (s, e)) (hne : De.deDoc ty buf ≠ .fuel) :
     ∃ t, docTree false buf = some t ∧ ∃ g0, ∀ g, g0 ≤ g → (De.deDoc ty buf).toOpt = decode buf g ty t :=
